@@ -46,7 +46,13 @@ def gen_whole(rng, max_funcs=3):
                 f = e.split(":", 2)
                 if not any(f[0] == n for n, _ in genv):
                     genv.append((f[0], "p0(%s)" % f[2].rsplit("=", 1)[0] if False else "p0(%s)" % global_ty(f[2])))
-        funcs = [core3gen.gen_func(rng, sig=sg, genv=genv) for sg in sigs]
+        # some of the functions are DECLARATIONS (no blocks: `declare T @f(params)`, the parameters numbered like those of a definition)
+        funcs = []
+        for sg in sigs:
+            if rng.random() < 0.3:
+                funcs.append(core3gen.gen_decl(sg))
+            else:
+                funcs.append(core3gen.gen_func(rng, sig=sg, genv=genv))
         nd, dd = metagen.gen_sec(rng, max_defs=4) if rng.random() < 0.7 else ("-", "-")
         args = [ts, gs, nd, dd, str(len(funcs))] + [x for f in funcs for x in f]
         return " ".join(args)
@@ -58,6 +64,7 @@ def mutants(rng, text):
     lines = text.split(b"\n")
     gl = [k for k, l in enumerate(lines) if re.match(rb"@\S+ = (global|constant) ", l)]
     fn = [k for k, l in enumerate(lines) if l.startswith(b"define ")]
+    dc = [k for k, l in enumerate(lines) if l.startswith(b"declare ")]
     td = [k for k, l in enumerate(lines) if re.match(rb"%\S+ = type ", l)]
     md = [k for k, l in enumerate(lines) if l.startswith(b"!")]
     def with_line(k, new):
@@ -68,6 +75,14 @@ def mutants(rng, text):
         g, f = rng.choice(gl), rng.choice(fn)
         gname = lines[g][:lines[g].index(b" = ")]
         out.append(("function-named-like-global", with_line(f, lines[f].replace(fname(f) + b"(", gname + b"(", 1))))
+    if dc:
+        d = rng.choice(dc)
+        # a declaration and a definition (or two declarations) of one name; a declaration with a body; a definition without one
+        out.append(("declaration-doubled", b"\n".join(lines[:d + 1] + [b"", lines[d]] + lines[d + 1:])))
+        out.append(("declaration-with-body", with_line(d, lines[d] + b" {\n\tunreachable\n}")))
+        if fn:
+            f = rng.choice(fn)
+            out.append(("declaration-named-like-definition", with_line(d, lines[d].replace(fname(d) + b"(", fname(f) + b"(", 1))))
     if len(fn) >= 2:
         a, b = rng.sample(fn, 2)
         out.append(("two-functions-one-name", with_line(b, lines[b].replace(fname(b) + b"(", fname(a) + b"(", 1))))
@@ -114,12 +129,15 @@ def mutants(rng, text):
         # the definition of a used global variable / function deleted
         gd = [j for j in gl if lines[j].startswith(m.group(0) + b" = ")]
         fd = [j for j in fn if fname(j) == m.group(0)]
+        dd = [j for j in dc if fname(j) == m.group(0)]
+        if dd:
+            out.append(("used-declaration-deleted", b"\n".join(lines[:dd[0]] + lines[dd[0] + 1:])))
         if gd:
             out.append(("used-global-deleted", b"\n".join(lines[:gd[0]] + lines[gd[0] + 1:])))
         if fd:
             close = next(j for j in range(fd[0], len(lines)) if lines[j] == b"}")
             out.append(("used-function-deleted", b"\n".join(lines[:fd[0]] + lines[close + 1:])))
-        others = [lines[j][:lines[j].index(b" = ")] for j in gl] + [fname(j) for j in fn]
+        others = [lines[j][:lines[j].index(b" = ")] for j in gl] + [fname(j) for j in fn + dc]
         others = [o for o in others if o != m.group(0)]
         if others:
             out.append(("global-use-renamed", with_line(k, lines[k][:m.start()] + rng.choice(others) + lines[k][m.end():])))
